@@ -98,6 +98,7 @@ def _c05_matrix(nq: int, nr: int, chunk: int, kind: int, nsel: int, s0: int, s1:
     pre: 1 <= nq <= MAXQ and 1 <= nr <= MAXR and 0 <= chunk <= MAXR + 1 and 0 <= kind <= 2 and 0 <= nsel <= 4
     pre: all(0 <= s < MAXR for s in (s0, s1, s2)) and (nsel > 1 or s0 == 0) and (nsel > 2 or s1 == 0) and (nsel > 3 or s2 == 0)
     pre: ('kind' not in P or kind == P['kind']) and nsel <= MAXSEL + 1
+    pre: 'longsel' not in P or (nsel == MAXSEL + 1 and nq == 1 and nr == MAXR)
     post: _
     """
     return _matrix_run(nq, nr, chunk, kind, nsel, s0, s1, s2, own_out, qkind)[0]
@@ -159,6 +160,7 @@ def _c05_pairwise(n: int, kind: int, nsel: int, s0: int, s1: int, s2: int, s3: i
     pre: 1 <= n <= MAXR and 0 <= kind <= 2 and 0 <= nsel <= 5 and all(0 <= s < MAXR for s in (s0, s1, s2, s3))
     pre: (nsel > 1 or s0 == 0) and (nsel > 2 or s1 == 0) and (nsel > 3 or s2 == 0) and (nsel > 4 or s3 == 0)
     pre: ('kind' not in P or kind == P['kind']) and nsel <= MAXSEL + 2
+    pre: 'longsel' not in P or (nsel == MAXSEL + 2 and n == MAXR)
     post: _
     """
     return _pairwise_run(n, kind, nsel, s0, s1, s2, s3, flat, own_out)[0]
